@@ -655,3 +655,46 @@ type SrcRef struct {
 	Path string
 	Lo   int
 }
+
+// NotBit complements one bit of the provenance domain.
+func NotBit(b Bit) Bit { return notBit(b) }
+
+// SubstSource replaces, in v, every plain copy of bit j of source src by with[j]
+// (complemented where the copy was). A bit that combines src with other terms
+// becomes Mix. Used to compose the effect of two successive stores to one field.
+func SubstSource(v BitVec, src string, with BitVec) BitVec {
+	out := make(BitVec, len(v))
+	for i, b := range v {
+		out[i] = b
+		if b.Kind != BSrc {
+			continue
+		}
+		if b.Src == src && b.More == "" {
+			if b.Idx < len(with) {
+				r := with[b.Idx]
+				if b.Neg {
+					r = notBit(r)
+				}
+				out[i] = r
+			} else {
+				out[i] = Bit{Kind: BMix}
+			}
+			continue
+		}
+		for _, t := range b.terms() {
+			if strings.HasPrefix(t, src+".") {
+				out[i] = Bit{Kind: BMix}
+			}
+		}
+	}
+	return out
+}
+
+// SourceVec is the identity vector of an opaque source of width w.
+func SourceVec(src string, w int) BitVec {
+	out := make(BitVec, w)
+	for i := range out {
+		out[i] = Bit{Kind: BSrc, Src: src, Idx: i}
+	}
+	return out
+}
